@@ -113,7 +113,7 @@ func families() []family {
 		fs = append(fs, family{[]string{"verified"}, "resource", x.c, x.n, 2})
 	}
 	fs = append(fs,
-		family{[]string{"verified"}, "characteristics-get", "query-ids", 24, 3},
+		family{[]string{"verified"}, "characteristics-get", "query-ids", 30, 3},
 		family{[]string{"verified"}, "characteristics-get", "frame-size", 11, 2},
 		family{[]string{"verified"}, "accessories", "frame-size", 11, 1},
 		family{[]string{"verified"}, "characteristics-get", "empty-frames", 9, 2},
